@@ -854,6 +854,20 @@ pub async fn process_multiple_changes(
                             }
                         })?;
                     }
+                    // these versions have no live change left anywhere: whatever we
+                    // buffered for them (a partially received version) is obsolete
+                    if check_buffered_meta_to_clear(&tx, change.actor_id, versions.clone()).map_err(
+                        |e| ChangeError::Rusqlite {
+                            source: e,
+                            actor_id: Some(change.actor_id),
+                            version: Some(end),
+                        },
+                    )? && let Err(e) = agent
+                        .tx_clear_buf()
+                        .try_send((change.actor_id, versions.clone()))
+                    {
+                        error!("could not schedule buffered meta clear: {e}");
+                    }
                     KnownDbVersion::Cleared
                 } else {
                     if let Some(seqs) = change.seqs()
@@ -1039,6 +1053,17 @@ pub async fn process_multiple_changes(
                         });
                     } else {
                         debug!(%actor_id, %version, "still have {gaps_count} gaps in partially buffered seqs: {:?}", seqs.gaps(&full_seqs_range).collect::<Vec<_>>());
+                    }
+                } else {
+                    // applied as a whole or declared empty: a partial we still tracked
+                    // for these versions is obsolete
+                    let stale: Vec<CrsqlDbVersion> = booked_write
+                        .partials
+                        .range(versions.clone())
+                        .map(|(v, _)| *v)
+                        .collect();
+                    for v in stale {
+                        booked_write.partials.remove(&v);
                     }
                 }
             }
